@@ -202,7 +202,7 @@ Definition rstep (o : oracle) (s : rstate) (x : op) : list cmd * rstate :=
   | Frame => frame o s
   | SkipFrame => ([], rskip s)
   | Clear => rclear s
-  | Renew => let '(cs, _) := rclear s in (cs, rnew (rh s) (rw s) true)
+  | Renew => (fst (rclear s), rnew (rh s) (rw s) true)
   end.
 
 (* the command lists issued op by op *)
